@@ -366,6 +366,8 @@ class StageCL(Component):
     s.p.in_ //= s.in_
     s.out //= s.c.out
     connect(s.p.send, s.c.recv)
+    # a component WITHOUT a block of its own that orders blocks of its children
+    s.add_constraints( U(s.p.get_update_block("up_send")) < U(s.c.get_update_block("up_out")) )
 class StageM(Component):
   @non_blocking(lambda s: True)
   def recv(s, v):
@@ -378,7 +380,7 @@ class StageM(Component):
       s.out <<= (s.nxt + k) & 255
     s.add_constraints( M(s.recv) < U(up_out) )
 class Chain(Component):
-  def construct(s, classes, ks, lb=None, tie=None, mc=None):
+  def construct(s, classes, ks, lb=None, tie=None, mc=None, pc=False):
     s.in_ = InPort(8); s.out = OutPort(8)
     s.stage = [c(k=k) for c, k in zip(classes, ks)]
     s.stage[0].in_ //= s.in_
@@ -393,6 +395,8 @@ class Chain(Component):
     def up_pre(): s.in_2 @= s.in_
     s.in_2 = Wire(8)
     s.add_constraints( WR(s.stage[0].out) < U(up_obs), RD(s.stage[0].in_) > U(up_pre) )
+    # ... and on a BLOCK of a child (when the child has one of that name)
+    if pc: s.add_constraints( U(up_pre) < U(s.stage[0].get_update_block("up")) )
     if lb is not None:
       # a registered stage wired back onto itself BY THE PARENT (a counter)
       s.lb = lb[0](k=lb[1]); s.lbo = OutPort(8)
@@ -410,9 +414,9 @@ class Chain(Component):
       s.tie.in_ //= 5
       s.tieo //= s.tie.out
 class Outer(Component):
-  def construct(s, classes, ks, lb=None, tie=None, mc=None):
+  def construct(s, classes, ks, lb=None, tie=None, mc=None, pc=False):
     s.in_ = InPort(8); s.out = OutPort(8); s.lbo = OutPort(8); s.tieo = OutPort(8); s.mco = OutPort(8)
-    s.ch = Chain(classes, ks, lb, tie, mc)
+    s.ch = Chain(classes, ks, lb, tie, mc, pc)
     if mc is not None: s.mco //= s.ch.mco
     else: s.mco //= 0
     s.ch.in_ //= s.in_; s.out //= s.ch.out
@@ -441,7 +445,8 @@ def run_cl2_case(sh, case):
     nested = rng.random() < 0.5           # the chain sits one level below the top: replaced list elements are at depth 2
     Cls = mod.Outer if nested else mod.Chain
     pre = "top.ch." if nested else "top."
-    mk = lambda kinds_, ks_, ex: Cls([cls_of[k] for k in kinds_], ks_, **{a: None if v is None else (cls_of[v[0]], v[1]) for a, v in ex.items()})
+    pc = kinds[0] == "RTL" and rng.random() < 0.6          # the parent orders one of its blocks against the block "up" of stage[0]
+    mk = lambda kinds_, ks_, ex: Cls([cls_of[k] for k in kinds_], ks_, pc=pc, **{a: None if v is None else (cls_of[v[0]], v[1]) for a, v in ex.items()})
     setp = None; wild = None
     if rng.random() < 0.4:
       setp = (rng.randrange(n), rng.randrange(1, 9))             # set_param on a list element that may be replaced later
@@ -466,6 +471,7 @@ def run_cl2_case(sh, case):
     for _ in range(rng.randrange(1, 4)):
       i = rng.choice(slots); newk = rng.choice(["RTL", "CL", "CL"]); newv = rng.randrange(1, 9)
       if i == "mc": newk = "M"
+      if i == 0 and pc: newk = "RTL"          # the parent's constraint names a block that only this kind has
       byclass = rng.random() < 0.5
       old_k = ks[i] if isinstance(i, int) else extra[i][1]
       if byclass: newv = old_k          # replace_component( old, cls ) constructs cls with the OLD component's arguments
@@ -482,7 +488,7 @@ def run_cl2_case(sh, case):
         final[i] = newk; ks[i] = newv
       else:
         extra[i] = [newk, newv]
-    W = lambda kind, **kw: sh.violation(kind, dict(kw, original=kinds, steps=steps, final=final, extra=extra, set_param=setp, wildcard=wild, deep=deep, nested=nested), case=("cl2", case))
+    W = lambda kind, **kw: sh.violation(kind, dict(kw, original=kinds, steps=steps, final=final, extra=extra, set_param=setp, wildcard=wild, deep=deep, nested=nested, parent_block_constraint=pc), case=("cl2", case))
     topB = mk(final, ks, extra)
     params(topB)
     topB.elaborate()
